@@ -1849,6 +1849,8 @@ class Interp:
                     self.record(o, ok, st, f'operand in [{lo}, {hi}]')
             elif kind.startswith('PointerCoercion(Unsize'):
                 v = self.unsize(st, a, rv['to'])
+            elif kind.startswith('PointerCoercion(ReifyFnPointer') or kind.startswith('PointerCoercion(ClosureFnPointer'):
+                v = a if a is not None and a[0] in ('fn', 'clo') else self.top(st, rv['to'], 'cast')     # a function used as a pointer is still that function
             else:
                 v = self.top(st, rv['to'], 'cast')
         elif r == 'ref':
@@ -2108,6 +2110,25 @@ class Interp:
             tya_ = [self.subst_ty(x, sub_) for x in tya_]
         site = {'fn': fn, 'bb': bb, 'span': t.get('span'), 'callee': cid or decl, 'tyargs': tya_, 'expn': t.get('expn'),
                 'dty': dty, 'fid': fid, 'decl': decl}
+        if cid is None and decl is None and f.get('op') is not None:
+            # a call through a function pointer / callable value held in a local: when the value is a known function or closure, call it
+            fv = self.operand(st, fid, f['op'])
+            if fv is not None and fv[0] == 'r':
+                tgt = self.read_resolved(st, ('L',) + fv[1])
+                fv = tgt if tgt is not None else fv
+            if fv is not None and fv[0] in ('fn', 'clo'):
+                r_ = self.call_closure(st, fv, args, dict(site, callee=fv[1]))
+                if r_ is not None:
+                    outs = r_
+                    if t['target'] is None:
+                        return []
+                    res = []
+                    for s2, v in outs:
+                        if s2.dead or fid not in s2.frames:
+                            continue
+                        self.write_place(s2, fid, dest, v)
+                        res.append((t['target'], s2))
+                    return res
         outs = self.do_call(st, cid, decl, args, dty, site, f)
         if t['target'] is None:
             return []
